@@ -467,6 +467,7 @@ def g_slices(which, mode, dim=3, canary=False):
     for k_, (c, out, args) in enumerate(verify.explore_body('dwt.lowlevel', qual, mk, base, callees)):
         pid = '%s/path%d' % (oid, k_)
         info['paths'] += 1
+        CUR.ctx = c          # index maps are evaluated lazily: they must see THIS path's condition
         if out[0] == 'raise':
             obs.append(Ob(pid + '/raises(no value to constrain)', 'POST', 'proved', 'path', 0, {'exception': out[1].kind}))
             continue
